@@ -420,6 +420,14 @@ pub fn run_prop(ctx: &Ctx, sink: &mut Sink) {
         let args: Vec<String> = s.iter().map(|x| x.to_string()).collect();
         push_case(ctx, sink, &cwd, &baseline, &args, vec!["shape"]);
     }
+    // ---- the time directives of -printf with every letter (and some other characters) as the second
+    // one: a letter is either a conversion that renders, or the format is refused before anything runs
+    for lead in ['A', 'C', 'T'] {
+        for k in ('A'..='Z').chain('a'..='z').chain(['@', '+', '%', '0', '-', '.', '!', '_', ':'].into_iter()) {
+            let args: Vec<String> = vec!["t".into(), "-exec".into(), "cp".into(), "ref".into(), "trace".into(), ";".into(), "-printf".into(), format!("%{lead}{k}|")];
+            push_case(ctx, sink, &cwd, &baseline, &args, vec!["shape", "time-directive"]);
+        }
+    }
     // ---- every word sequence up to a length over the operators, parentheses and two primaries,
     // through parse_args alone (the expression grammar exhaustively at small sizes)
     {
